@@ -104,3 +104,61 @@ def init() -> None:
     f = os.path.abspath(aw_core.__file__)
     if not f.startswith(REPO + os.sep):
         raise RuntimeError(f"aw_core imported from {f}, expected under {REPO}")
+
+
+# ---------------------------------------------------------------------------
+# interpreter configuration of a worker: asserts stripped (what `python -O` does), library logging at DEBUG
+
+_PKGS = ("aw_core", "aw_datastore", "aw_transform", "aw_query", "aw_client")
+_opt_finder = None
+
+
+def set_optimize(flag: bool) -> None:
+    """(Re-)import the tree under test in this process compiled with or without its assert statements (`python -O` compiles
+    them out, and `__debug__` is False): every module of the tree is dropped from sys.modules and loaded again on next import."""
+    global _opt_finder
+    import importlib.abc
+    import importlib.machinery
+
+    if bool(flag) == (_opt_finder is not None):
+        return
+
+    class _Loader(importlib.machinery.SourceFileLoader):
+        def get_code(self, fullname):  # always from source: no bytecode cache, optimisation level 1
+            path = self.get_filename(fullname)
+            return compile(self.get_data(path), path, "exec", dont_inherit=True, optimize=1)
+
+    class _Finder(importlib.abc.MetaPathFinder):
+        def find_spec(self, fullname, path, target=None):
+            if fullname.split(".")[0] not in _PKGS:
+                return None
+            spec = importlib.machinery.PathFinder.find_spec(fullname, path)
+            if spec is not None and spec.origin and spec.origin.endswith(".py") and os.path.abspath(spec.origin).startswith(REPO + os.sep):
+                spec.loader = _Loader(fullname, spec.origin)
+            return spec
+
+    if flag:
+        _opt_finder = _Finder()
+        sys.meta_path.insert(0, _opt_finder)
+    else:
+        sys.meta_path.remove(_opt_finder)
+        _opt_finder = None
+    for name in [n for n in sys.modules if n.split(".")[0] in _PKGS]:
+        del sys.modules[name]
+
+
+def set_debug_logging(flag: bool) -> None:
+    """Library loggers enabled down to DEBUG (records are formatted and thrown away) or, as everywhere else, disabled."""
+    root = logging.getLogger()
+    if flag:
+        logging.disable(logging.NOTSET)
+        root.setLevel(logging.DEBUG)
+        if not any(isinstance(h, _Discard) for h in root.handlers):
+            root.addHandler(_Discard())
+    else:
+        logging.disable(logging.CRITICAL)
+
+
+class _Discard(logging.Handler):
+    def emit(self, record):
+        record.getMessage()  # format the message as a real handler would, then drop it
